@@ -125,6 +125,8 @@ class HeapMixin:
             return self.truth(v)
         if isinstance(v, VBool):
             return z3.If(v.term, z3.IntVal(1), z3.IntVal(0))
+        if isinstance(v, VInt) and t == ty.ANY:
+            return self.box_num(v.term)
         if isinstance(v, VNum):
             if t == ty.ANY:
                 return self.box_num(v.term)
@@ -179,8 +181,12 @@ class HeapMixin:
         return x
 
     def box_num(self, term):
-        f = z3.Function('box_num', term.sort(), I)
-        return f(term)
+        f = z3.Function('box_num' if term.sort() == I else 'box_real', term.sort(), I)
+        u = z3.Function('unbox_num', I, self.ctx.num) if term.sort() == self.ctx.num else \
+            z3.Function('unbox_int', I, I)
+        r = f(term)
+        self.fact(u(r) == term)
+        return r
 
     def box_tuple(self, v):
         sorts = []
